@@ -11,7 +11,7 @@ use crate::elem::{IN_LIB, WindowOff, GUARD, POISON};
 pub const TABLE: usize = 64;
 pub const QUAR: usize = 512;
 pub const EVENTS: usize = 512;
-pub const GUARD_BYTES: usize = 1024;
+pub const GUARD_BYTES: usize = 4096;
 /// requests above this many bytes are never forwarded to the system allocator
 pub const REFUSE_ABOVE: usize = 1 << 34;
 
